@@ -723,6 +723,9 @@ class CallMixin:
                 obj = env[base.id]
                 if obj.ty.name == "Opt":
                     obj = Val(obj.ty.args[0], obj.t)
+                if not chain and star and obj.ty.name == "Obj":
+                    out.append(("prefix", obj.ty.args[0] + ".", obj.t))      # p.* : every field of the parameter object
+                    continue
                 if not chain:
                     # the parameter itself: contents of a list / dict parameter
                     if obj.ty.name == "List":
